@@ -252,11 +252,11 @@ def c01_decoder():
     for L in (1, 2, 3, 4, 5, 6):
         for rl in (1, 2):
             if L >= 5 and rl == 2: continue
-            tiers = ("quick", "thorough") if L <= 3 else ("thorough",)
+            tiers = ("thorough",)          # >= 240 s each even at LEN=1 (256-entry context table initialisation): not in the quick tier
             qs.append(Q(f"decode_len{L}_rl{rl}", "decoder.cpp", "vh_decode", {"LEN": L, "RLEN": rl, "NS": 0}, unwind=L + 4,
                         unwindset={"is_impl": 70, "Code": 60, "decoder": 258, "vh_decode": L + 4, "load": L + 2, "apply_analysis": L + 3, "fetch_opcode": L + 2, "_ZN9graphite22vm7Machine4Code7decoder4loadEPKhS5_.recursion": 2,
                                    "_ZN9graphite22vm7Machine4Code7decoder11emit_opcodeENS0_6opcodeERPKh.recursion": 2}, tiers=tiers,
-                        timeout=1700 if L > 3 else None))
+                        timeout=1700))
     return qs
 C01_PARTS = [c01_cmap, c01_name, c01_decoder]
 @prop("C01")
